@@ -1121,7 +1121,7 @@ func runLoaderProp(prop string, judge string) {
 			}
 		}
 		meta := &Meta{Property: prop, Seed: seed, Histogram: map[string]int{}, Shard: 50,
-			Rule: "directed reference graphs (chain, diamond, same text in two files, pure reference cycles, wrong kind closing a cycle, whole-file references with nested directories and a reference back into the root, unvisited positions, extension areas, dangling, http) x {allowed, disallowed} x {LoadFromFile/URI, LoadFromData, LoadFromDataWithPath} + seeded random stores: 1-4 documents (nested directories, an http host) and 0-5 single-element files, 1-9 components of 8 kinds each, references (45%) to any component or file of the slot's kind under a random relative spelling, plus dangling (6%), wrong-kind (5%) and extension-area (5%) targets, components that are themselves references (18%), shared component names across files (35%); non-trivial = the store has at least one reference; distinct by JSON of the case"}
+			Rule: "directed reference graphs (chain, diamond, same text in two files, pure reference cycles, wrong kind closing a cycle, whole-file references with nested directories and a reference back into the root, unvisited positions, extension areas, dangling, http) x {allowed, disallowed} x {LoadFromFile/URI, LoadFromData, LoadFromDataWithPath} + seeded random stores: 1-4 documents (nested directories, an http host) and 0-5 single-element files, 1-9 components of 8 kinds each, references (45%) to any component or file of the slot's kind under a random relative spelling, plus dangling (6%), wrong-kind (5%) and extension-area (5%) targets, components that are themselves references (18%), shared component names across files (35%); non-trivial = the store has at least one reference; distinct by JSON of the case; C02/C20 also run histories on one Loader (Go side): a first load (directed: a chain breaking off at a missing target, a self-referential schema left open by an error; generated: up to 30 stores, failing ones first) followed by a self-contained document with the same reference texts at a location of its own, via LoadFromData and LoadFromDataWithPath, compared with a fresh Loader; C02 also loads up to 60 multi-file stores (and directed ones whose resources differ in the query, host or scheme only) through the caching reader URIMapCache and compares with the plain reader"}
 		seen := map[string]bool{}
 		var terms []string
 		var idx []int
@@ -1173,6 +1173,18 @@ func runLoaderProp(prop string, judge string) {
 			meta.Histogram[fmt.Sprintf("entry=%d", c.Entry)]++
 		}
 		meta.NCases = len(cases)
+		if (prop == "C02" || prop == "C20") && replay == "" {
+			lHistories(cases, func(i int) *LObs {
+				o := meta.Cases[i].(map[string]any)["go"].(LObs)
+				return &o
+			}, meta, 30, 8)
+		}
+		if prop == "C02" && replay == "" {
+			lCacheTransparency(cases, func(i int) *LObs {
+				o := meta.Cases[i].(map[string]any)["go"].(LObs)
+				return &o
+			}, meta, 60)
+		}
 		meta.Files, meta.Offsets = writeCasesInterned(outDir, "cases", "From KV Require Import Model.Base Model.Loader Exec.LoaderExec.", "lcase", judge, terms, meta.Shard)
 		meta.IndexMap = idx
 		writeMeta(outDir, meta)
@@ -1362,7 +1374,7 @@ func c20Mutants(r *Rng, n int) []LCase {
 		}
 		// deep nesting now and then
 		if r.Chance(5) {
-			s = strings.Repeat("{\"items\":", 3000) + "{}" + strings.Repeat("}", 3000)
+			s = strings.Repeat("{\"items\":", 1500) + "{}" + strings.Repeat("}", 1500) // loading is super-linear in the depth: 3000 levels take 7 s, too close to the 8 s watchdog
 			s = "{\"openapi\":\"3.0.3\",\"info\":{\"title\":\"t\",\"version\":\"1\"},\"paths\":{},\"components\":{\"schemas\":{\"D\":" + s + "}}}"
 		}
 		base.Bytes = s
